@@ -44,7 +44,7 @@
 #include <stdint.h>
 #include <sys/resource.h>
 
-#define C2S_HEX_LIMIT 6000   /* longer client streams are reported by length + crc32 only */
+#define C2S_HEX_LIMIT 30000  /* longer client streams are reported by length + crc32 only */
 #define MAX_TIMEOUTS 3       /* after that many hanging cases the rest of the batch is answered `skipped` */
 static int ntimeouts = 0;
 
